@@ -1867,9 +1867,11 @@ fn run() {
         let mut r = rng.fork();
         run_part_a(&mut ctx, &mut r, params.n(1500, 30_000));
     }
-    if part == "all" || part == "b" {
+    if part == "all" || part == "b" || part == "b1" {
         let mut r = rng.fork();
-        run_part_b_attrs(&mut ctx, &mut r, params.n(20_000, 400_000));
+        run_part_b_attrs(&mut ctx, &mut r, params.n(20_000, 150_000));
+    }
+    if part == "all" || part == "b" || part == "b2" {
         let mut r = rng.fork();
         run_part_b_nlri(&mut ctx, &mut r, params.n(15_000, 300_000));
     }
